@@ -521,7 +521,7 @@ Lemma icmp_accepts_matches ifc s p v4 m :
 Proof.
   intros Hu H. unfold sock_matches. rewrite Hu. destruct s; cbn in H; try discriminate.
   split; [|split; reflexivity].
-  destruct b; destruct m as [ident len|ident len|ty q len]; try discriminate; try (apply Z.eqb_eq in H; exact H).
+  destruct b; destruct m as [ident len|ident len|ty q len|tg ll hl|tg ll hl]; try discriminate; try (apply Z.eqb_eq in H; exact H).
   - destruct q; try discriminate. apply andb_true_iff in H. destruct H as (H & H3).
     apply andb_true_iff in H. destruct H as (_ & H2). apply opt_addr_ok_spec in H2. apply Z.eqb_eq in H3.
     split; [exact H2 | congruence].
@@ -665,6 +665,10 @@ Definition reply_facts6 (ifc : iface) (src dst : Z) (h : option hbh) (u : upper)
                  r_iplen r <= wipv6_MIN_MTU
   | KParamOpt => h <> None /\ upper_is_error u = false /\ src_selected6 ifc src dst r /\
                  r_iplen r <= wipv6_MIN_MTU
+  | KNeighAdv => exists target ll, u = UIcmp (INeighSol target ll 255) /\ if_medium ifc <> MIp /\
+                 r_src r = V6 target /\ v6_x_is_unicast target = true /\
+                 ing_has_ip_addr ifc (V6 target) = true /\
+                 (ing_has_solicited_node ifc dst = true \/ ing_has_ip_addr ifc (V6 dst) = true)
   | _ => False
   end.
 
@@ -769,7 +773,7 @@ Proof.
       - apply (filter_idx_spec _ socks STcpClosed) in Hi. destruct Hi as (Hl & Ha).
         rewrite <- Hdst in Ha. destruct (icmp_accepts_matches ifc _ p true m Eu Ha) as (M1 & M2 & M3).
         split; [exact Hl|]. split; [exact M1|]. split; [intros _; rewrite Hdst; exact Hpass | intros Ht; congruence]. }
-    destruct m as [id len | id len | ty q len]; cbn [res_deliv res_reply]; split; try exact Hd;
+    destruct m as [id len | id len | ty q len | tg ll hl | tg ll hl]; cbn [res_deliv res_reply]; split; try exact Hd;
       try (intros ? Hr; discriminate).
     intros r Hr. split; [exact Hpass|]. apply icmpv4_reply_spec in Hr. destruct Hr as (R1 & R2 & R3 & R4 & R5).
     unfold reply_facts4. rewrite R1. split; [exact R2|]. split; [exact R4|].
@@ -923,13 +927,29 @@ Proof.
     { intros i Hi. apply (filter_idx_spec _ socks STcpClosed) in Hi. destruct Hi as (Hl & Ha).
       rewrite <- Hdst in Ha. destruct (icmp_accepts_matches ifc _ p false m Eu Ha) as (M1 & M2 & M3).
       split; [exact Hl|]. split; [exact M1|]. split; [intros _; rewrite Hdst; exact Hpass | intros Ht; congruence]. }
-    destruct m as [id len | id len | ty q len].
+    destruct m as [id len | id len | ty q len | tg ll hl | tg ll hl].
     + destruct (ing_icmpv6_reply ifc src dst KEchoReply (8 + len)) as [o| |] eqn:Er; cbn [obind]; try discriminate.
       intros H. inv H. cbn [res_deliv res_reply]. split; [exact Hd|].
       intros r Hr. subst o. apply icmpv6_reply_spec in Er. destruct Er as (R1 & R2 & R3 & R4 & R5).
       split; [rewrite R1; discriminate|]. unfold reply_facts6. rewrite R1. split; [exact R2|]. split; [exact Hus|].
       split; [exists id, len; reflexivity | exact R5].
     + intros H. inv H. cbn [res_deliv res_reply]. split; [exact Hd | intros ? Hr; discriminate].
+    + intros H. inv H. cbn [res_deliv res_reply]. split; [exact Hd | intros ? Hr; discriminate].
+    + (* neighbor solicitation *)
+      destruct (Z.eqb_spec hl 255) as [Ehl|Ehl];
+        [|intros H; inv H; cbn [res_deliv res_reply]; split; [exact Hd | intros ? Hr; discriminate]].
+      subst hl. destruct (if_medium ifc) eqn:Em;
+        try (intros H; inv H; cbn [res_deliv res_reply]; split; [exact Hd | intros ? Hr; discriminate]).
+      all: intros H; inv H; cbn [res_deliv res_reply]; split; [exact Hd|].
+      all: intros r Hr; unfold ing_process_ndisc_ns in Hr.
+      all: destruct (v6_x_is_unicast tg) eqn:Et; cbn [negb] in Hr; [|discriminate].
+      all: destruct (match ll with Some l => negb (hw_is_unicast l) | None => false end); [discriminate|].
+      all: destruct ((ing_has_solicited_node ifc dst || ing_has_ip_addr ifc (V6 dst)) && ing_has_ip_addr ifc (V6 tg)) eqn:Ec; [|discriminate].
+      all: inv Hr; apply andb_true_iff in Ec; destruct Ec as (Ec1 & Ec2); apply orb_true_iff in Ec1.
+      all: split; [cbn; discriminate|]; unfold reply_facts6; cbn [r_kind r_dst r_src].
+      all: split; [reflexivity|]; split; [exact Hus|]; exists tg, ll.
+      all: split; [reflexivity|]; split; [rewrite Em; discriminate|]; split; [reflexivity|].
+      all: split; [exact Et|]; split; [exact Ec2 | exact Ec1].
     + intros H. inv H. cbn [res_deliv res_reply]. split; [exact Hd | intros ? Hr; discriminate].
   - (* IGMP number in an IPv6 packet: an unknown next header *)
     destruct h.
@@ -1119,7 +1139,8 @@ Proof.
   { intros hr. unfold ing_process_nxt_hdr. destruct u as [sp dp ctl ack len | sp dp len | m | | n len].
     - eexists; reflexivity.
     - apply process_udp_total. exact Hs.
-    - unfold ing_process_icmpv6. destruct m as [id len|id len|ty q len]; try (eexists; reflexivity).
+    - unfold ing_process_icmpv6. destruct m as [id len|id len|ty q len|tg ll hl|tg ll hl]; try (eexists; reflexivity);
+        try (destruct (hl =? 255); [destruct (if_medium ifc)|]; eexists; reflexivity).
       destruct (icmpv6_reply_total ifc src dst KEchoReply (8 + len) Hs) as (o & E). rewrite E. cbn [obind]. eexists; reflexivity.
     - destruct hr; [eexists; reflexivity|].
       destruct (icmpv6_reply_total ifc src dst KParamNxt
@@ -1333,9 +1354,12 @@ Proof.
   apply (joined_is_multicast ifc x Hwf) in H. congruence.
 Qed.
 
+(* own unicast address; with any_ip (the interface acts for every address) the unicast address
+   the packet was sent to or, for a neighbor advertisement, the unicast target asked for *)
 Definition legal_reply_source (ifc : iface) (p : packet) (r : reply) : Prop :=
   (own ifc (r_src r) /\ ip_is_unicast (r_src r) = true) \/
-  (if_any_ip ifc = true /\ r_src r = p_dst p /\ ip_is_unicast (p_dst p) = true /\ ~ is_bcast ifc (p_dst p)).
+  (if_any_ip ifc = true /\ r_src r = p_dst p /\ ip_is_unicast (p_dst p) = true /\ ~ is_bcast ifc (p_dst p)) \/
+  (if_any_ip ifc = true /\ r_kind r = KNeighAdv /\ ip_is_unicast (r_src r) = true).
 
 Lemma selected6_legal ifc p s d r : wf_iface ifc -> p_src p = V6 s -> p_dst p = V6 d ->
   r_dst r = V6 s -> ip_passed ifc (V6 d) -> src_selected6 ifc s d r ->
@@ -1344,7 +1368,7 @@ Proof.
   intros Hwf Es Ed Hrd Hp [(Hu & Hsrc) | (Hu & s' & Hg & Hsrc)] Hnk.
   - assert (Hm : ip_is_multicast (V6 d) = false) by (apply unicast_not_multicast; exact Hu).
     destruct (passed_unicast_is_own ifc (V6 d) Hwf Hp Hm) as [Ha | Ho]; [cbn; tauto | |].
-    + right. rewrite Ed. repeat split; [exact Ha | exact Hsrc | exact Hu | cbn; tauto].
+    + right; left. rewrite Ed. repeat split; [exact Ha | exact Hsrc | exact Hu | cbn; tauto].
     + left. rewrite Hsrc. split; [exact Ho | exact Hu].
   - apply gsa6_result in Hg. destruct Hg as [Ho | (Hl & Hc)].
     + left. rewrite Hsrc. split; [exact Ho | apply (own_is_unicast ifc _ Hwf Ho)].
@@ -1373,7 +1397,7 @@ Proof.
     assert (Huni : ing_is_unicast_v4 ifc d = true -> r_src r = V4 d -> legal_reply_source ifc p r).
     { intros Hu Hsrc. apply is_unicast_v4_dst_facts in Hu. destruct Hu as (A & B & C).
       destruct (passed_unicast_is_own ifc (V4 d) Hwf Hp B A) as [Ha | Ho].
-      - right. rewrite Ed. repeat split; assumption.
+      - right; left. rewrite Ed. repeat split; assumption.
       - left. rewrite Hsrc. split; assumption. }
     destruct (r_kind r) eqn:Ek; try contradiction.
     + destruct F3 as (_ & Hsrc & Hok & _). apply tcp_dst_ok_facts in Hok. destruct Hok as (A & B & C & _).
@@ -1381,7 +1405,7 @@ Proof.
       { cbn in *. unfold v4_x_is_unicast. rewrite B, C.
         destruct (v4_is_broadcast d) eqn:Eb; [|reflexivity]. exfalso. apply A. left. apply Z.eqb_eq. exact Eb. }
       destruct (passed_unicast_is_own ifc (V4 d) Hwf Hp B A) as [Ha | Ho].
-      * right. rewrite Ed. repeat split; assumption.
+      * right; left. rewrite Ed. repeat split; assumption.
       * left. rewrite Hsrc. split; assumption.
     + destruct F3 as (_ & [(Hu & Hsrc) | (_ & _ & a & Ha & Hsrc)]).
       * apply Huni; assumption.
@@ -1399,6 +1423,33 @@ Proof.
     + destruct F3 as (_ & _ & Hsel & _). apply (selected6_legal ifc p s d r Hwf Es Ed F1 Hp Hsel Hnk).
     + destruct F3 as (_ & Hsel & _). apply (selected6_legal ifc p s d r Hwf Es Ed F1 Hp Hsel Hnk).
     + destruct F3 as (_ & _ & Hsel & _). apply (selected6_legal ifc p s d r Hwf Es Ed F1 Hp Hsel Hnk).
+    + destruct F3 as (tg & ll & _ & _ & Hsrc & Hu & Hhas & _). unfold legal_reply_source. rewrite Hsrc.
+      unfold ing_has_ip_addr in Hhas. destruct (if_any_ip ifc) eqn:Ea.
+      * right; right. repeat split; [exact Ek | exact Hu].
+      * left. apply own_addr_own in Hhas. split; [exact Hhas | exact Hu].
+Qed.
+
+(* a neighbor advertisement is sent only in answer to a neighbor solicitation with hop limit 255
+   that is addressed to the interface (an own address or the solicited-node group of one), on a
+   medium with neighbor discovery, and whose target is a unicast address of the interface (any
+   unicast address with any_ip); its source is that target, its destination the solicitation's
+   source *)
+Theorem c10_ndisc_reply_source_own ifc socks p res r :
+  ing_process ifc socks p = Ok res -> res_reply res = Some r -> r_kind r = KNeighAdv ->
+  exists target ll,
+    p_upper p = UIcmp (INeighSol target ll 255) /\ if_medium ifc <> MIp /\
+    r_src r = V6 target /\ r_dst r = p_src p /\ ip_is_unicast (r_src r) = true /\
+    (if_any_ip ifc = true \/ own ifc (V6 target)) /\ addressed_to_us ifc p.
+Proof.
+  intros Hr Hrep Hk. destruct (process_spec ifc socks p res Hr) as (_ & Hs).
+  destruct (Hs r Hrep) as ((Hl & _) & Hp & Hf). unfold reply_facts in Hf.
+  destruct (p_src p) as [s|s] eqn:Es; destruct (p_dst p) as [d|d] eqn:Ed; try contradiction.
+  - destruct Hf as (_ & _ & F3). rewrite Hk in F3. contradiction.
+  - destruct Hf as (F1 & _ & F3). rewrite Hk in F3. destruct F3 as (tg & ll & Hu & Hm & Hsrc & Hun & Hhas & _).
+    exists tg, ll. split; [exact Hu|]. split; [exact Hm|]. split; [exact Hsrc|]. split; [exact F1|].
+    split; [rewrite Hsrc; exact Hun|]. split.
+    + unfold ing_has_ip_addr in Hhas. destruct (if_any_ip ifc); [left; reflexivity | right; apply own_addr_own; exact Hhas].
+    + split; [exact Hl | rewrite Ed; apply ip_passed_addressed; exact Hp].
 Qed.
 
 (* replies that are errors or resets never exceed the minimum MTU of their family *)
@@ -1628,17 +1679,19 @@ Qed.
    reply — is total: none of the assert!/unreachable! sites of the modelled code is reached *)
 Theorem c10_ingress_and_reply_dispatch_never_panic ifc socks p :
   wf_routes ifc ->
-  exists res l, ing_process ifc socks p = Ok res /\ ing_ingress_emits ifc res = Ok l.
+  exists res l, ing_process ifc socks p = Ok res /\ ing_ingress_emits_p ifc p res = Ok l.
 Proof.
   intros Hwr. destruct (process_total ifc socks p) as (res & Hr). exists res.
-  unfold ing_ingress_emits. destruct (res_reply res) as [r|] eqn:Erep; [|exists []; split; [exact Hr | reflexivity]].
+  unfold ing_ingress_emits_p. destruct (res_reply res) as [r|] eqn:Erep; [|exists []; split; [exact Hr | reflexivity]].
   destruct (process_spec ifc socks p res Hr) as (_ & Hs). destruct (Hs r Erep) as (_ & _ & Hf).
   assert (Hu : ip_is_unicast (r_dst r) = true).
   { unfold reply_facts in Hf. destruct (p_src p) as [s|s]; destruct (p_dst p) as [d|d]; try contradiction;
       destruct Hf as (F1 & F2 & _); rewrite F1.
     - apply is_unicast_v4_facts in F2. cbn. tauto.
     - exact F2. }
-  destruct (c10_dispatch_never_panics ifc r Hwr Hu) as (l & Hl). exists l. split; assumption.
+  assert (Hwr' : wf_routes (ifc_learn ifc (ing_neigh_learned p r))).
+  { unfold ifc_learn. destruct (ing_neigh_learned p r); exact Hwr. }
+  destruct (c10_dispatch_never_panics _ r Hwr' Hu) as (l & Hl). exists l. split; assumption.
 Qed.
 
 (* ---- sources of multicast reports *)
